@@ -14,6 +14,8 @@ structure DSt where
   cfg   : Cfg := {}
   σ     : State := State.init 0 0
   gates : List Bool := []          -- per target: `true` = Send is blocked by the harness
+  sgates : List Bool := []         -- per source: `true` = the source cluster does not read: the receiver's Send of an ack blocks
+  sheld  : List Nat := []          -- per source: trailing acks of `acksSent` whose Send has not returned yet (0 or 1)
   seenEmit : List Nat := []        -- per target: emitted messages already reported
   seenAck  : List Nat := []        -- per source: acks already reported
   hint     : List (TId × List (SId × Bool)) := []
@@ -26,7 +28,8 @@ def candidates (d : DSt) : List Act :=
   let nt := d.σ.targets.length
   let srcActs := (List.range ns).flatMap fun s =>
     let x := d.σ.src s
-    [Act.rack s] ++
+    -- a `sendAck` goroutine blocked in Send does nothing else: no further `rack` for that source until the gate opens
+    (if d.sheld.getD s 0 > 0 then [] else [Act.rack s]) ++
     (match x.pc with
      | .bcast _ todo => todo.map fun p => Act.bcastStep s p.1
      | .deliver pending => if d.noRetry then [] else pending.map fun p => Act.deliver s p.1
@@ -78,11 +81,19 @@ def firstEnabled (c : Cfg) (σ : State) (hint : List (TId × List (SId × Bool))
         some (σ', hint')
       | none => firstEnabled c σ hint rest
 
+/-- after a step: an acknowledgement that a gated source's receiver has just "sent" is in fact held in a blocked Send -/
+def holdNew (d : DSt) (σ' : State) : List Nat :=
+  (List.range σ'.sources.length).map fun s =>
+    let grew := (σ'.src s).acksSent.length - (d.σ.src s).acksSent.length
+    -- the harness's slow source refuses only what is NEW to it: a repeated watermark (keep-alive re-send) still gets through
+    let isNew := (σ'.src s).acksSent.getLast? != (d.σ.src s).acksSent.getLast?
+    if d.sgates.getD s false && grew > 0 && isNew then d.sheld.getD s 0 + grew else d.sheld.getD s 0
+
 def settle : Nat → DSt → DSt
   | 0, d => d
   | fuel + 1, d =>
     match firstEnabled d.cfg d.σ d.hint (candidates d) with
-    | some (σ', h') => settle fuel { d with σ := σ', hint := h' }
+    | some (σ', h') => settle fuel { d with σ := σ', hint := h', sheld := holdNew d σ' }
     | none => d
 
 def showEmitted (e : Emitted) : String :=
@@ -107,7 +118,9 @@ def observe (d : DSt) : DSt × String :=
     let x := d.σ.src s
     let seen := d.seenAck.getD s 0
     let prev := (x.acksSent.take seen).getLast?
-    let fresh := dedup (x.acksSent.drop seen) prev
+    -- what the source cluster has received: everything sent except the acknowledgement held in a blocked Send
+    let visible := x.acksSent.take (x.acksSent.length - d.sheld.getD s 0)
+    let fresh := dedup (visible.drop seen) prev
     s!"S{s}=[" ++ Drv.joinWith "," (fresh.map toString) ++ "]"
   let ch := (List.range nt).map fun t =>
     let tg := d.σ.tgt t
@@ -117,7 +130,7 @@ def observe (d : DSt) : DSt × String :=
     if x.active then s!"{s}:{x.ackChan.length}" else s!"{s}:-"
   let d' := { d with
     seenEmit := (List.range nt).map fun t => (d.σ.tgt t).emitted.length
-    seenAck := (List.range ns).map fun s => (d.σ.src s).acksSent.length }
+    seenAck := (List.range ns).map fun s => (d.σ.src s).acksSent.length - d.sheld.getD s 0 }
   (d', Drv.joinWith " " tparts ++ " | " ++ Drv.joinWith " " sparts ++ " | ch " ++ Drv.joinWith " " ch ++ " | ak " ++ Drv.joinWith " " ak)
 
 def fuel : Nat := 200000
@@ -176,7 +189,7 @@ def step (d : DSt) (line : String) : DSt × String :=
     match ns.toNat?, nt.toNat?, cap.toNat? with
     | some ns, some nt, some cap =>
       ({ cfg := { chanCap := cap, seedAcks := seedFlag == "1" }, σ := State.init ns nt,
-         gates := List.replicate nt false, seenEmit := List.replicate nt 0, seenAck := List.replicate ns 0 }, "ok")
+         gates := List.replicate nt false, sgates := List.replicate ns false, sheld := List.replicate ns 0, seenEmit := List.replicate nt 0, seenAck := List.replicate ns 0 }, "ok")
     | _, _, _ => (d, "bad-op")
   | ["opensrc", s] => match s.toNat? with
     | some s => applyEnv d [.openSrc s] hint
@@ -198,11 +211,17 @@ def step (d : DSt) (line : String) : DSt × String :=
   | ["gate", t, b] => match t.toNat? with
     | some t => applyEnv { d with gates := d.gates.set t (b == "1") } [] hint
     | none => (d, "bad-op")
+  | ["sgate", s, b] => match s.toNat? with
+    -- closing: from now on an ack this receiver sends stays in its blocked Send; opening: the held ack arrives
+    | some s => applyEnv { d with sgates := d.sgates.set s (b == "1"), sheld := if b == "1" then d.sheld else d.sheld.set s 0 } [] hint
+    | none => (d, "bad-op")
   | ["breaktgt", t] => match t.toNat? with
     | some t => applyEnv { d with gates := d.gates.set t false } [.breakTgt t] hint
     | none => (d, "bad-op")
   | ["breaksrc", s] => match s.toNat? with
-    | some s => applyEnv d [.breakSrc s] hint
+    | some s =>
+      if d.sheld.getD s 0 > 0 then (d, "unsupported: source stream broken while an acknowledgement is held in a blocked Send")
+      else applyEnv { d with sgates := d.sgates.set s false } [.breakSrc s] hint
     | none => (d, "bad-op")
   | _ => (d, "bad-op")
 
